@@ -1,7 +1,7 @@
 """C01 - base and extension field arithmetic is exact and canonical."""
 ID = "C01"
-GEN_TAGS = ["BFieldGen"]
-PROOF_TARGETS = ["proofs/BFieldProofs.vo", "proofs/BFieldLoops.vo", "proofs/XFieldProofs.vo", "proofs/XFieldIrred.vo", "proofs/BatchInvProofs.vo"]
+GEN_TAGS = ["BFieldGen", "XFieldGen"]
+PROOF_TARGETS = ["proofs/BFieldProofs.vo", "proofs/BFieldLoops.vo", "proofs/XFieldProofs.vo", "proofs/XFieldIrred.vo", "proofs/BatchInvProofs.vo", "proofs/XFieldGenProofs.vo"]
 PROPS_FILE = "props/C01.v"
 EXTRACT = "extract/ExtractC01.vo"
 ORACLE = ("gen_c01", "c01.ml")
@@ -17,7 +17,7 @@ TRUSTED = [
     "extraction: ExtrOcamlBasic + ExtrOcamlZBigInt (all of its Extract Inductive/Constant directives for positive, N, Z -> zarith), OCaml 4.13.1, zarith 1.12",
     "correspondence harness (harness/src/c01.rs), oracle driver (ocaml/c01.ml), case generator (tools/props/c01.py)",
     "modelled by hand, tied by correspondence only: mod_pow loop, inverse addition chain, batch_inversion, XFieldElement operations (inverse modelled by closed-form adjugate instead of polynomial xgcd), From/TryFrom glue",
-    "verified through the translator (theorems re-checked on regenerated definitions): montyred, new, value, Add, Sub, Mul, Neg, mod_reduce (From<u128>), From<i64> match, bfe_to_i64",
+    "verified through the translator (theorems re-checked on regenerated definitions): montyred, new, value, Add, Sub, Mul, Neg, mod_reduce (From<u128>), From<i64> match, bfe_to_i64, XFieldElement * XFieldElement",
     "derived PartialEq/Eq/Hash on BFieldElement(u64) are structural (Rust derive semantics)",
 ]
 ASSUMPTIONS = [
